@@ -5,6 +5,15 @@ Each anchor is (lean name, source file, extractor).  An extractor that cannot fi
 produces a definition that does not elaborate (so every Props module depending on it fails to build)
 and the anchor is listed in Gen/BREAKS.txt as translation-break:<anchor>.
 Files are rewritten only when their content changes (keeps lake incremental).
+
+Options (used by tools/check.py so that a check of property P depends only on the source anchors P's
+theorems and correspondence components depend on):
+  --only A,B     regenerate from the source only Gen/A.lean, Gen/B.lean; every other Gen file gets the
+                 committed baseline tools/gen_baseline/<Name>.lean (what the pinned tree translates to)
+  --fallback     a broken anchor takes its baseline definition instead of a non-elaborating one (second
+                 pass, after the break was recorded, so that the driver links and the search for a
+                 concrete failing input can run the model)
+  --write-baseline   refresh tools/gen_baseline from the current tree (maintainer action, committed)
 """
 import os, re, sys, json
 sys.path.insert(0, os.path.dirname(os.path.abspath(__file__)))
@@ -51,11 +60,32 @@ def const_value(text, name):
         raise TranslateError(f'const {name}: unsupported expression {e.strip()!r}')
     return int(eval(e.replace('/', '//')))
 
+BASE = os.path.join(os.path.dirname(os.path.abspath(__file__)), 'gen_baseline')
+
+def baseline_blocks(name):
+    """lean def name -> baseline block (doc comment + def) of Gen/<name>.lean"""
+    path = os.path.join(BASE, name + '.lean')
+    out = {}
+    if os.path.exists(path):
+        for blk in open(path).read().split('\n\n'):
+            m = re.search(r'^def\s+([A-Za-z0-9_\']+)', blk, flags=re.M)
+            if m:
+                out[m.group(1)] = blk.strip('\n')
+    return out
+
 class Gen:
-    def __init__(self):
+    def __init__(self, base=None):
         self.lines = []
         self.breaks = []
         self.anchors = []
+        self.base = base      # fallback blocks, or None = strict
+
+    def broken(self, lean, anchor, e, text):
+        self.breaks.append(f"translation-break:{anchor} ({e})")
+        if self.base is not None and lean in self.base:
+            self.lines.append(self.base[lean].replace('/-- ', '/-- [BASELINE FALLBACK, anchor broken] ', 1))
+        else:
+            self.lines.append(text)
 
     def nat(self, lean, anchor, f):
         self.anchors.append(anchor)
@@ -63,8 +93,7 @@ class Gen:
             v = f()
             self.lines.append(f"/-- {anchor} -/\ndef {lean} : Nat := {v}")
         except (TranslateError, Exception) as e:  # noqa
-            self.breaks.append(f"translation-break:{anchor} ({e})")
-            self.lines.append(f"/-- {anchor}: TRANSLATION BREAK {str(e)[:80]} -/\ndef {lean} : Nat := translation_break_{lean}")
+            self.broken(lean, anchor, e, f"/-- {anchor}: TRANSLATION BREAK {str(e)[:80]} -/\ndef {lean} : Nat := translation_break_{lean}")
 
     def fn(self, lean, sig, anchor, f):
         """def <lean> <sig> := <translated term>, e.g. sig = "(a b : Nat) : Bool" """
@@ -73,8 +102,7 @@ class Gen:
             v = f()
             self.lines.append(f"/-- {anchor} -/\ndef {lean} {sig} := {v}")
         except (TranslateError, Exception) as e:  # noqa
-            self.breaks.append(f"translation-break:{anchor} ({e})")
-            self.lines.append(f"/-- {anchor}: TRANSLATION BREAK {str(e)[:80]} -/\ndef {lean} {sig} := translation_break_{lean}")
+            self.broken(lean, anchor, e, f"/-- {anchor}: TRANSLATION BREAK {str(e)[:80]} -/\ndef {lean} {sig} := translation_break_{lean}")
 
     def term(self, lean, ty, anchor, f):
         self.anchors.append(anchor)
@@ -82,8 +110,7 @@ class Gen:
             v = f()
             self.lines.append(f"/-- {anchor} -/\ndef {lean} : {ty} := {v}")
         except (TranslateError, Exception) as e:  # noqa
-            self.breaks.append(f"translation-break:{anchor} ({e})")
-            self.lines.append(f"/-- {anchor}: TRANSLATION BREAK -/\ndef {lean} : {ty} := translation_break_{lean}")
+            self.broken(lean, anchor, e, f"/-- {anchor}: TRANSLATION BREAK -/\ndef {lean} : {ty} := translation_break_{lean}")
 
 
 def write_if_changed(path, body):
@@ -105,21 +132,39 @@ class Api:
 def main():
     import importlib.util, glob
     os.makedirs(OUT, exist_ok=True)
-    breaks, nanch, changed = [], 0, False
+    breaks, nanch, changed, ignored = [], 0, False, []
+    args = sys.argv[1:]
+    only = None
+    if '--only' in args:
+        only = set(x for x in args[args.index('--only') + 1].split(',') if x)
+    fallback = '--fallback' in args
+    write_base = '--write-baseline' in args
+    if write_base:
+        os.makedirs(BASE, exist_ok=True)
     for plug in sorted(glob.glob(os.path.join(os.path.dirname(__file__), 'gen.d', '*.py'))):
         spec = importlib.util.spec_from_file_location('gen_' + os.path.basename(plug)[:-3], plug)
         mod = importlib.util.module_from_spec(spec); spec.loader.exec_module(mod)
-        g = Gen()
+        g = Gen(baseline_blocks(mod.NAME) if fallback else None)
         mod.extend(g, Api)
         body = ("-- GENERATED by tools/gen_from_source.py (plugin gen.d/%s) from the Rust sources under /repo on every check run.\n"
                 "-- Do not edit: the theorems in Props/ are re-checked against these definitions.\n"
                 "namespace QM.Gen\n\n" % os.path.basename(plug)) + "\n\n".join(g.lines) + "\n\nend QM.Gen\n"
+        bpath = os.path.join(BASE, mod.NAME + '.lean')
+        if write_base:
+            if g.breaks:
+                print('refusing to write a baseline with breaks:', g.breaks); sys.exit(1)
+            write_if_changed(bpath, body)
+        if only is not None and mod.NAME not in only and os.path.exists(bpath):
+            # not in this property's dependency closure: pinned translation, source changes there are not its business
+            changed |= write_if_changed(os.path.join(OUT, mod.NAME + '.lean'), open(bpath).read())
+            ignored += [f'{mod.NAME}: {b}' for b in g.breaks]
+            continue
         changed |= write_if_changed(os.path.join(OUT, mod.NAME + '.lean'), body)
-        breaks += g.breaks
+        breaks += [f'{b} [Gen/{mod.NAME}]' for b in g.breaks]
         nanch += len(g.anchors)
     with open(os.path.join(OUT, 'BREAKS.txt'), 'w') as f:
         f.write("\n".join(breaks) + ("\n" if breaks else ""))
-    print(json.dumps({'anchors': nanch, 'breaks': breaks, 'changed': changed}))
+    print(json.dumps({'anchors': nanch, 'breaks': breaks, 'changed': changed, 'outside_closure': ignored}))
 
 if __name__ == '__main__':
     main()
